@@ -447,6 +447,60 @@ func draw(t *rapid.T) Case {
 			cs.Pol = append(cs.Pol, rapid.SampledFrom(cands).Draw(t, "ustmt"))
 		}
 	}
+	if rapid.IntRange(0, 11).Draw(t, "focuslongeq") == 6 {
+		// == between two sequences (bytes, string, list) of DIFFERENT length of which one is a periodic or
+		// zero-padded extension of the other, the difference being 1, 2, or at / around a multiple of 256 or 65536:
+		// whatever folds a length or walks "the longer one modulo the shorter one" is wrong exactly there
+		unit := rapid.SliceOfN(rapid.Byte(), 1, 4).Draw(t, "le-unit")
+		d := rapid.SampledFrom([]int{1, 2, 255, 256, 257, 512, 768, 1024, 65536}).Draw(t, "le-d")
+		long := make([]byte, 0, len(unit)+d)
+		if rapid.Bool().Draw(t, "le-periodic") {
+			for len(long) < len(unit)+d {
+				long = append(long, unit[len(long)%len(unit)])
+			}
+		} else {
+			long = append(append(long, unit...), make([]byte, d)...)
+		}
+		kind := rapid.IntRange(0, 2).Draw(t, "le-k")
+		conv := func(b []byte) val.V {
+			switch kind {
+			case 0:
+				return val.Bytes(b)
+			case 1:
+				r := make([]byte, len(b))
+				for i, x := range b {
+					r[i] = 'a' + x%26
+				}
+				return val.Str(string(r))
+			}
+			l := val.V{K: "list"}
+			for _, x := range b {
+				l.L = append(l.L, val.Int(int64(x%3)))
+			}
+			return l
+		}
+		if kind == 2 && d > 1100 {
+			long = long[:len(unit)+1024]
+		}
+		a, b := conv(unit), conv(long)
+		if rapid.Bool().Draw(t, "le-swap") {
+			a, b = b, a
+		}
+		cs.Data = val.Map(val.E("a", a), val.E("l", val.List(a, b)), val.E("m", val.Map(val.E("v", a))))
+		lit := b
+		eq := pol.Stmt{Op: "==", Sel: sel.Sel{{Kind: "field", Name: "a"}}, Lit: &lit}
+		mlit := val.Map(val.E("v", b))
+		switch rapid.IntRange(0, 4).Draw(t, "le-wrap") {
+		case 0, 1:
+			cs.Pol = pol.Policy{eq}
+		case 2:
+			cs.Pol = pol.Policy{{Op: "not", Sub: []pol.Stmt{eq}}}
+		case 3:
+			cs.Pol = pol.Policy{{Op: "any", Sel: sel.Sel{{Kind: "field", Name: "l"}}, Sub: []pol.Stmt{{Op: "==", Sel: sel.Sel{{Kind: "id"}}, Lit: &lit}}}}
+		default:
+			cs.Pol = pol.Policy{{Op: "==", Sel: sel.Sel{{Kind: "field", Name: "m"}}, Lit: &mlit}}
+		}
+	}
 	if rapid.IntRange(0, 11).Draw(t, "focusfloateq") == 7 {
 		// == between floats that are the same NUMBER with different bits (0 and -0) or the same bits and no number
 		// (NaN), as scalars and nested under list and map literals, where an implementation may compare encodings
